@@ -206,10 +206,10 @@ PLANS = {
     },
     "C13": {
         "jobs": lambda tier: jobs_vec(tier, False),
-        "rule": "one generated operand set is run through 152 data-movement cells per back end: unpack/into storage, to_lanes, from_lanes, "
+        "rule": "one generated operand set is run through 163 data-movement cells per back end: unpack/into storage, to_lanes, from_lanes, "
                 "Machine::vec, vzip, insert/extract at every element index (words and whole lanes), transpose4, to_scalars, read_le/"
                 "read_be/write_le/write_be and their round trips, storage views (Into<[u32;N]|[u64;N]|[u128;N]>, From<[u32;4]|[u64;4]>, "
-                "new128/split128, Default, PartialEq incl. operands differing only in an upper lane) against little-endian word packing "
+                "new128/split128, Default, PartialEq incl. operands differing only in an upper lane, Into conversions between the vector types of one concrete x86 back end) against little-endian word packing "
                 "of one canonical byte string; non-trivial = first operand not all-zero; distinct = FNV-1a of (back end, operand set)",
     },
     "C09": {
